@@ -9,4 +9,6 @@ def check(run, replay=None):
     run.rule = ("L1: dispatch arms (variant -> method, argument order, post-processing) of generated programs vs model and "
                 "signature; L2: echo handlers called through entry points, dispatch and the multitest Contract impl with random "
                 "env/info/storage, Ok and Err outcomes; non-trivial = distinct (program, route, message, outcome)")
-    return msgprops.check(run, "C02", "Props/C02", THEOREMS, {"c02": True}, replay)
+    # (the L2 run observes the context components through the real conversions whether or not the translated tie holds)
+    return msgprops.check(run, "C02", "Props/C02", THEOREMS, {"c02": True}, replay,
+                          translated=("Props/C02T", ["c02_translated_ctx_conversions"]))
